@@ -322,6 +322,16 @@ def special_islands(ctx, rep):
                         rep.violate(f"fitness-predictor island, generation {g + 1}: {bad} individuals are marked evaluated but their stored fitness is "
                                     "not the value of the island's current fitness function", "C05:stale-fitness", {**case, "generation": g + 1})
                         break
+                    # the island's private hall of fame of PREDICTED fitness values is ranked by the current predictor: its members
+                    # carry the current fitness function's value (it is emptied whenever the predictor changes)
+                    priv = getattr(isl, "_hof_w_predicted_fitness", None)
+                    if priv is not None:
+                        off = [(float(e.fitness), float(cur(e.copy()))) for e in priv if e.fit_set and not close(float(e.fitness), float(cur(e.copy())))]
+                        if off:
+                            rep.violate(f"fitness-predictor island, generation {g + 1}: a member of the predicted-fitness hall of fame is marked evaluated "
+                                        f"with fitness {off[0][0]}, the island's current fitness function gives {off[0][1]} ({len(off)} such members)",
+                                        "C05:stale-fitness", {**case, "generation": g + 1})
+                            break
                     # what the island hands out as TRUE fitness (hall of fame, best individual) is the full-data value of the genome
                     handed = [("hall-of-fame entry", e) for e in isl.hall_of_fame] + [("reported best individual", isl.get_best_individual())]
                     wrong = [(what, float(e.fitness), float(full_ref(e.copy()))) for what, e in handed
